@@ -29,6 +29,11 @@ type Case struct {
 	// (in place when its capacity allows, otherwise the parent moves to new
 	// storage); the view must keep addressing the parent.
 	Grow int `json:"grow,omitempty"`
+	// GrownSrc > 0: the parent is the result of a growing Append: A single samples in a 1-frame
+	// buffer (A < C), then a source of GrownSrc samples. It may end in a partial frame and its
+	// capacity need not be a whole number of frames; the view is probed at every (channel, index)
+	// that exists in the parent.
+	GrownSrc int `json:"grownSrc,omitempty"`
 }
 
 var names = kit.BuiltinNames()
@@ -37,6 +42,35 @@ func Check(c *Case) (res kit.Result) {
 	ok := false
 	for _, n := range names {
 		ok = ok || n == c.T
+	}
+	if c.GrownSrc > 0 {
+		if !ok || c.C < 2 || c.C > 64 || c.A < 0 || c.A >= c.C || c.Ch < 0 || c.Ch >= c.C || c.GrownSrc > 4096 {
+			return
+		}
+		C := c.C
+		g := kit.AllocAny(c.T, signal.Allocator{Channels: C, Length: 0, Capacity: 1})
+		for k := 0; k < c.A; k++ {
+			g.AppendSample(kit.IV(kit.PartialVal(k)))
+		}
+		src := kit.AllocAny(c.T, signal.Allocator{Channels: C, Length: 0, Capacity: c.GrownSrc/C + 1})
+		for k := 0; k < c.GrownSrc; k++ {
+			src.AppendSample(kit.IV(int64(1 + k%90)))
+		}
+		g.Append(src)
+		view := g.Channel(c.Ch)
+		n := 0 // indices of this channel that exist in the parent: C*i+ch < Len
+		for C*n+c.Ch < g.Len() {
+			n++
+		}
+		if g.Hdr().Cap%C != 0 {
+			res.Class("parentCapacityNotWholeFrames")
+		}
+		if g.Hdr().Length > g.Hdr().Capacity {
+			res.Class("parentLengthExceedsCapacity")
+		}
+		cc := *c
+		cc.Idx = nil
+		return checkMovedN(&cc, &res, g, view, n)
 	}
 	if !ok || c.C < 1 || c.C > 64 || c.Kr < 0 || c.A < 0 || c.A > c.B || c.B > c.Kr || c.Ch < 0 || c.Ch >= c.C || c.C*c.Kr > 1<<20 {
 		return
@@ -173,7 +207,7 @@ func Check(c *Case) (res kit.Result) {
 func FP(c *Case) uint64 {
 	h := kit.NewHasher()
 	h.Str(c.T)
-	h.Ints([]int{c.C, c.Kr, c.A, c.B, c.Ch, c.Fix, c.Grow})
+	h.Ints([]int{c.C, c.Kr, c.A, c.B, c.Ch, c.Fix, c.Grow, c.GrownSrc})
 	h.Ints(c.Idx)
 	return h.Sum()
 }
@@ -183,6 +217,12 @@ func Gen(t *rapid.T) *Case {
 	c.Kr, c.A, c.B = kit.GenWindow(t, "p", 2000)
 	c.Ch = rapid.IntRange(0, c.C-1).Draw(t, "ch")
 	c.Fix = rapid.IntRange(0, 2).Draw(t, "fix")
+	if c.C >= 2 && rapid.IntRange(0, 5).Draw(t, "grownSel") == 0 {
+		c.Kr, c.B = 0, 0
+		c.A = rapid.IntRange(0, c.C-1).Draw(t, "grownPre")
+		c.GrownSrc = rapid.IntRange(1, 50).Draw(t, "grownSrc")
+		return c
+	}
 	if rapid.IntRange(0, 2).Draw(t, "growSel") == 0 {
 		c.Grow = rapid.IntRange(1, 2*(c.Kr-c.B)+3).Draw(t, "grow")
 	}
@@ -201,8 +241,13 @@ var Oracle = kit.Oracle[Case]{Property: Property, Gen: Gen, Check: Check, FP: FP
 // view was taken. The reference is the parent itself: the view must read the
 // parent's samples and a write through the view must change exactly one of them.
 func checkMoved(c *Case, res *kit.Result, parent kit.AnyBuf, view kit.AnyChan, frames int) kit.Result {
+	return checkMovedN(c, res, parent, view, frames)
+}
+
+// checkMovedN probes indices 0..frames-1 of the view against the parent itself.
+func checkMovedN(c *Case, res *kit.Result, parent kit.AnyBuf, view kit.AnyChan, frames int) kit.Result {
 	C := c.C
-	if view.Channels() != 1 || view.Length() != frames || view.Capacity() != parent.Hdr().Capacity {
+	if view.Channels() != 1 || view.Length() != parent.Hdr().Length || view.Capacity() != parent.Hdr().Capacity {
 		res.Failf("after the parent grew: view reports channels=%d length=%d capacity=%d, parent has length %d capacity %d", view.Channels(), view.Length(), view.Capacity(), frames, parent.Hdr().Capacity)
 		return *res
 	}
